@@ -52,7 +52,32 @@ def body(ctx):
     rng = ctx.rng
     plan = []
     rel = []      # (kind, op, t, id1, id2, slices)
-    for t, nb, E, M in FT:
+    if ctx.replay:
+        # a replay file holds the first plan line of each rejected event; the partner line of a relational event is a function of it
+        # (negated row for parity, sin/cos for sincos, abs for fabs, nearbyint for rint), so the relation is rebuilt here
+        for line in lanes.replay_plan(ctx.replay):
+            f = line.split()
+            nb = 4 if f[2] == "f32" else 8
+            if f[0] == "m1x2" and f[1] == "sincos":
+                plan.append(line)
+                i0 = len(plan)
+                plan.append("m1 sin %s 0 %s - - -" % (f[2], f[4]))
+                plan.append("m1 cos %s 0 %s - - -" % (f[2], f[4]))
+                rel.append(("same", "sincos/sin", f[2], i0, i0 + 1, (0, 64), None))
+                rel.append(("same", "sincos/cos", f[2], i0, i0 + 2, (64, 128), None))
+            elif f[0] == "m1" and f[1] in ("fabs", "rint"):
+                other = "abs" if f[1] == "fabs" else "nearbyint"
+                plan.append(line)
+                plan.append("m1 %s %s 0 %s - - -" % (other, f[2], f[4]))
+                rel.append(("same", f[1] + "/" + other, f[2], len(plan) - 1, len(plan), None, None))
+            elif f[0] == "m1" and f[1] in PARITY:
+                plan.append(line)            # judged on its own (special values) ...
+                plan.append(line)            # ... and against its negation (parity)
+                plan.append("m1 %s %s 0 %s - - -" % (f[1], f[2], neg_row(f[4], nb)))
+                rel.append(("pair", f[1], f[2], len(plan) - 1, len(plan), None, None))
+            else:
+                plan.append(line)
+    for t, nb, E, M in ([] if ctx.replay else FT):
         bits = 8 * nb
         rows = make_rows(ctx, bits, nb)
         for op in UN:
@@ -92,8 +117,6 @@ def body(ctx):
             plan.append("m1 rint %s 0 %s - - -" % (t, r))
             plan.append("m1 nearbyint %s 0 %s - - -" % (t, r))
             rel.append(("same", "rint/nearbyint", t, len(plan) - 1, len(plan), None, None))
-    if ctx.replay:
-        raise vf.InfraError("replay of relational C12 events: re-run the check with the seed recorded in the evidence")
     ctx.log("plan: %d lines, %d relations" % (len(plan), len(rel)))
     events, plan = lanes.record(ctx, "math", plan, "c12", watchdog_ms=2000)
     byline = lanes.results_by_line(events)
